@@ -318,8 +318,10 @@ func c06L2Session(t *testing.T, rec *vlib.Rec, idx int, c *c06Case) (obs *c06Obs
 	}
 	if len(third3) > 0 {
 		fam := "base"
-		if len(c.faults) > 0 {
+		if len(c.faults) == 1 {
 			fam = c.faults[0].family()
+		} else if len(c.faults) > 1 {
+			fam = "pair"
 		}
 		taw := 0
 		if s.taw {
